@@ -928,3 +928,55 @@ func ZZ_C11_host_values_convert_as_go() {
 	}
 	zz.Assert(same, "C11.host-values/value-is-go's-conversion/"+id)
 }
+
+// two distinct struct types that print the same (function-local types of one name)
+func zzSameNameA(id int64, name string) interface{} {
+	type rec struct {
+		ID   int64
+		Name string
+	}
+	return &rec{ID: id, Name: name}
+}
+
+func zzSameNameB(id int64, name string) interface{} {
+	type rec struct {
+		Name  string
+		Extra int64
+		ID    int64
+	}
+	return &rec{ID: id, Name: name, Extra: -1}
+}
+
+// ZZ_C11_members_of_same_named_types: member syntax reads and writes the Go
+// value's own fields - also when two struct types of different layout print
+// the same (types local to two functions, packages with one base name) and
+// members of both are used in one process, in either order.
+func ZZ_C11_members_of_same_named_types() {
+	i1, i2 := zz.Int64(), zz.Int64()
+	e := env.NewEnv()
+	a, b := zzSameNameA(i1, "first"), zzSameNameB(i2, "second")
+	if zz.Choose(2) == 1 {
+		e.Define("a", b)
+		e.Define("b", a)
+		i1, i2 = i2, i1
+	} else {
+		e.Define("a", a)
+		e.Define("b", b)
+	}
+	src := "r = [a.ID, b.ID, a.Name, b.Name]; a.ID = 7; b.ID = 8; r += [a.ID, b.ID, a.Name, b.Name]; r"
+	res, err := Execute(e, &Options{Debug: false}, src)
+	zz.Assertf(err == nil, "C11.members/same-named-types/runs", src)
+	if err != nil {
+		return
+	}
+	l, ok := res.([]interface{})
+	zz.Assertf(ok && len(l) == 8, "C11.members/same-named-types/result-shape", src)
+	if !ok || len(l) != 8 {
+		return
+	}
+	g := func(k int) int64 { x, _ := l[k].(int64); return x }
+	s := func(k int) string { x, _ := l[k].(string); return x }
+	zz.Assertf(g(0) == i1 && g(1) == i2, "C11.members/same-named-types/reads-each-value's-own-field", src)
+	zz.Assertf(g(4) == 7 && g(5) == 8, "C11.members/same-named-types/writes-each-value's-own-field", src)
+	zz.Assertf(s(2) == s(6) && s(3) == s(7) && s(2) != s(3), "C11.members/same-named-types/other-fields-untouched", src)
+}
